@@ -91,13 +91,15 @@ def run_stream(chk, prefix, replay=None):
     quick = chk.tier == "quick"
     # 1. design level: exhaustive model check of the client stream machine (all 24 configurations,
     #    arbitrary server over the 12 representative feature elements)
-    chk.mc(vf.tlc_mc("ClientStreamMC.tla", "ClientStream.cfg", workers=12, heap="8g"), "ClientStream.cfg")
+    mcfg = "ClientStream.cfg" if quick else "ClientStreamFull.cfg"   # 6 configurations / all 24
+    chk.mc(vf.tlc_mc("ClientStreamMC.tla", mcfg, workers=12, heap="8g", timeout=3600), mcfg)
     # 2. behaviours
     if replay:
         behs = [b for b in vf.read_ndjson(replay) if "steps" in b]
         stats = {}
     else:
-        tour, st = vf.tlc_gen("ClientStreamGen.tla", "ClientStreamGenTour.cfg", keep_prefixes=True, steps_key=None, heap="8g")
+        tour, st = vf.tlc_gen("ClientStreamGen.tla", "ClientStreamGenTour.cfg" if quick else "ClientStreamGenTourFull.cfg",
+                              keep_prefixes=True, steps_key=None, heap="8g", timeout=3600)
         chosen, sel = select(tour, 2500 if quick else 40000, chk.seed, coarse=quick)
         behs = []
         for b in chosen:
